@@ -8,8 +8,11 @@ use crate::tri;
 use crate::Cfg;
 use delaunay::core::delaunay_triangulation::{DelaunayRepairHeuristicConfig, DelaunayRepairPolicy};
 
+/// identity of the vertex set: UUID + data (coordinates are compared on the Lean side: they must be
+/// bit-identical, or within the documented perturbation when the heuristic rebuild re-inserted them)
 fn vertex_sig<const D: usize>(w: &World<D>) -> Vec<String> {
-    let mut v: Vec<String> = w.dt.vertices().map(|(_, v)| format!("{}:{}:{:?}", v.uuid(), hxs(v.point().coords()), v.data)).collect();
+    let _ = hxs(&[0.0]);
+    let mut v: Vec<String> = w.dt.vertices().map(|(_, v)| format!("{}:{:?}", v.uuid(), v.data)).collect();
     v.sort();
     v
 }
@@ -23,6 +26,8 @@ fn one<const D: usize>(id: &str, rng: &mut Rng, out: &mut Out) {
     let m = [1usize, 1, 2, 4, 8, 20, 50][rng.below(7) as usize];
     let nflips = random_flips(&mut w.dt, m, rng);
     let before = vertex_sig(&w);
+    // provenance baseline = the vertices as they are right before the repair call
+    w.offered = w.dt.vertices().map(|(_, v)| (v.uuid(), *v.point().coords(), v.data.unwrap_or(0))).collect();
     // "still satisfies": Level 3 is demanded after repair only if it held before (random flips
     // can leave a negatively oriented cell, which repair is not asked to fix)
     let pre_l3 = w.dt.as_triangulation().is_valid().is_ok();
@@ -44,7 +49,7 @@ fn one<const D: usize>(id: &str, rng: &mut Rng, out: &mut Out) {
         Ok(Ok(s)) => {
             obs.push(("outcome".into(), format!("ok:{s}").replace(' ', ",")));
             let after = vertex_sig(&w);
-            obs.push(("same_vertices".into(), if after == before { "1".into() } else { "0 repair changed the vertex set (uuid/coords/data)".into() }));
+            obs.push(("same_vertices".into(), if after == before { "1".into() } else { "0 repair changed the vertex set (uuid/data)".into() }));
             args = if pre_l3 { "expect=valid123 sphere=1 convex=1 gpdt=1".into() } else { "expect=valid12m sphere=1".into() };
         }
     }
